@@ -26,6 +26,8 @@ pub enum Demand {
     Sn(u32),
     /// one multi-node task with n nodes
     Mn(u32),
+    /// k multi-node tasks with n nodes each
+    Mns(u32, u32),
     /// one single-node task that needs 1 cpu + 1 gpu
     Gpu,
     /// one single-node task with min_time = the given number of seconds
@@ -224,7 +226,8 @@ fn c17_single(q: QueueSpec, thorough: bool) -> Scenario {
     let mut s = base(&format!("limits-{}", param_name(&q)), vec![q.clone()]);
     s.demands = if q.mwpa >= 2 || thorough {
         // a single small task leaves a queued allocation below the per-allocation maximum
-        vec![Demand::None, Demand::Sn(1), Demand::Sn(3), Demand::Mn(2)]
+        // more multi-node tasks than the backlog leaves room for
+        vec![Demand::None, Demand::Sn(1), Demand::Sn(3), Demand::Mn(2), Demand::Mns(3, 2)]
     } else {
         vec![Demand::None, Demand::Sn(3), Demand::Mn(2)]
     };
